@@ -285,6 +285,14 @@ def thickness_edit(ctx):
             def read(self, key):
                 if key == 'self.surface_group.positions':
                     return p
+                if key in self.heap:
+                    return self.heap[key]
+                pre = 'self.surface_group.surfaces['
+                if key.startswith(pre) and key.endswith('].geometry.cs.z'):
+                    try:
+                        return p[int(key[len(pre):-len('].geometry.cs.z')])]
+                    except (ValueError, IndexError):
+                        pass
                 return super().read(key)
         ev = E2(heap=heap)
         ev.drop_zero_index = True
@@ -295,14 +303,8 @@ def thickness_edit(ctx):
             ev.run(f.node.body)
         except Inconclusive as e:
             raise AnalysisError(f'set_thickness outside fragment: {e}')
-        new = [heap.get(f'self.surface_group.surfaces[{k}].geometry.cs.z')
-               for k in range(N)]
-        if any(v is None for v in new):
-            res.fail(ctx.finding('THICKNESS-EDIT', f, f.node,
-                                 'not every surface vertex is written back '
-                                 'after a thickness edit',
-                                 construct='set_thickness write-back'))
-            continue
+        new = [heap.get(f'self.surface_group.surfaces[{k}].geometry.cs.z',
+                        p[k]) for k in range(N)]
         ok = True
         msg = ''
         for j in range(N - 1):
@@ -312,9 +314,13 @@ def thickness_edit(ctx):
                 ok = False
                 msg = (f'editing gap {s_}: gap {j} becomes {gap}, expected '
                        f'{want}')
-        if not rat_eq(new[1], ZERO):
+        # inductive invariant: surface 1 is at z = 0 before the edit
+        n1 = Rat(new[1].n.subst('p1', Poly()), new[1].d.subst('p1', Poly()))
+        if not rat_eq(n1, ZERO):
             ok = False
-            msg = f'editing gap {s_}: surface 1 ends at z = {new[1]}, not 0'
+            msg = (f'editing gap {s_}: surface 1 (at z = 0 before the edit) '
+                   f'ends at z = {n1}, not 0: positions relative to surface '
+                   f'1 (entrance pupil location, ray launch) become wrong')
         if ok:
             res.ok(f'gap {s_}: only that gap changes; surface 1 at 0')
         else:
@@ -361,35 +367,48 @@ def media_chain(ctx):
                  'surface / wavelength lists')
     f = P.func('Optic.set_index')
     res.saw(f)
-    heap = {}
+    from ..rat import explore
 
-    def inline(call, ev):
-        if isinstance(call.func, ast.Name) and call.func.id == 'IdealMaterial':
-            kw = {k.arg: unparse(k.value) for k in call.keywords}
-            args = [unparse(a) for a in call.args]
-            n = kw.get('n', args[0] if args else None)
-            heap['#n'] = n
-            return A('NEWMAT')
-        return None
-    ev = Ev(heap=heap, inline=inline)
-    ev.env['value'] = A('value')
-    ev.env['surface_number'] = A('k')
-    try:
+    def run(choose):
+        heap = {}
+
+        def inline(call, ev):
+            if isinstance(call.func, ast.Name) and \
+                    call.func.id == 'IdealMaterial':
+                kw = {k.arg: unparse(k.value) for k in call.keywords}
+                args = [unparse(a) for a in call.args]
+                heap['#n'] = kw.get('n', args[0] if args else None)
+                return A('NEWMAT')
+            return None
+        ev = Ev(heap=heap, inline=inline, choose=choose)
+        ev.env['value'] = A('value')
+        ev.env['surface_number'] = A('k')
         ev.run(f.node.body)
+        return heap
+    try:
+        outcomes = explore(run)
     except Inconclusive as e:
         raise AnalysisError(f'set_index: {e}')
-    post = heap.get('self.surface_group.surfaces[k].material_post')
-    pre_keys = [k for k in heap if k.endswith('.material_pre')]
-    ok = post is not None and rat_eq(post, A('NEWMAT')) and len(pre_keys) == 1 \
-        and rat_eq(heap[pre_keys[0]], A('NEWMAT')) and \
-        pre_keys[0] == 'self.surface_group.surfaces[k+1].material_pre'
-    if ok and heap.get('#n') == 'value':
-        res.ok('set_index: post(k) := m, pre(k+1) := m, m = IdealMaterial(value)')
-    else:
-        res.fail(ctx.finding('MEDIA-CHAIN', f, f.node,
-                             'set_index does not write the same new medium '
-                             'behind surface k and in front of surface k+1',
-                             construct='set_index pair'))
+    for decisions, heap in outcomes:
+        post = heap.get('self.surface_group.surfaces[k].material_post')
+        pre_keys = [k for k in heap if k.endswith('.material_pre')]
+        ok = post is not None and rat_eq(post, A('NEWMAT')) and \
+            len(pre_keys) == 1 and rat_eq(heap[pre_keys[0]], A('NEWMAT')) and \
+            pre_keys[0] == 'self.surface_group.surfaces[k+1].material_pre'
+        extra = [k for k in heap if not k.startswith('#') and
+                 not k.endswith(('.material_post', '.material_pre'))]
+        if ok and heap.get('#n') == 'value' and not extra:
+            res.ok(f'set_index (branches {decisions}): post(k) := m, '
+                   f'pre(k+1) := m, m = IdealMaterial(value)')
+        else:
+            res.fail(ctx.finding(
+                'MEDIA-CHAIN', f, f.node,
+                'on some path set_index does not install one NEW medium '
+                'behind surface k and in front of surface k+1 (it writes '
+                f'{sorted(k for k in heap if not k.startswith("#"))}): an '
+                'existing medium object may be shared with other surfaces, '
+                'so editing it in place changes more than the addressed gap',
+                construct='set_index pair'))
     allowed = {
         ('Surface', 'material_pre'): {'Surface.__init__', 'Optic.set_index',
                                       'SurfaceGroup.inverted'},
@@ -416,6 +435,21 @@ def media_chain(ctx):
                     f'no longer maintained'))
         if n == 0:
             raise AnalysisError(f'no writer of {cn}.{attr} found')
+    # media are shared value objects: nothing outside the material classes
+    # may store into an attribute of a material
+    mats = set(P.subclasses('BaseMaterial'))
+    for fe in eff.fe.values():
+        if fe.func.cls in mats:
+            continue
+        for st in fe.stores:
+            if isinstance(st.base_t, str) and st.base_t in mats and not st.fresh:
+                res.fail(ctx.finding(
+                    'MEDIA-CHAIN', fe.func, st.stmt,
+                    f'{fe.func.qual} modifies a medium object in place '
+                    f'({st.base_t}.{st.attr}); media are shared between '
+                    f'surfaces (and between gaps), so the edit leaks to every '
+                    f'surface holding the same object'))
+    res.ok('no store into a material object outside the material classes')
     lists = {('SurfaceGroup', 'surfaces'): {'SurfaceGroup.add_surface',
                                             'SurfaceGroup.remove_surface',
                                             'SurfaceGroup.__init__'},
@@ -756,52 +790,79 @@ def solve(ctx):
                  'successors; image_solve puts the image at y + u d = 0')
     f = P.func('MarginalRayHeightSolve.apply')
     res.saw(f)
-    sym = Sym()
+    from ..rat import explore
 
     def inline(call, ev):
         if isinstance(call.func, ast.Attribute) and \
                 call.func.attr == 'marginal_ray':
             return (A('YA'), A('UA'))
         return None
-    ev = Ev(sym=sym, inline=inline)
-    ev.drop_zero_index = True
-    off = None
-    for s in f.node.body:
-        if isinstance(s, ast.For):
-            loop = s
-            break
-        ev.stmt(s)
-    else:
-        loop = None
-    off = ev.env.get('offset')
-    if off is None:
-        raise AnalysisError('solve: offset not found')
+
+    def run(choose):
+        ev = Ev(sym=Sym(), inline=inline, choose=choose)
+        ev.drop_zero_index = True
+        for p_ in f.params:
+            ev.env[p_] = A('param:' + p_)
+        loop_ = None
+
+        def go(body):
+            nonlocal loop_
+            for s_ in body:
+                if isinstance(s_, ast.For):
+                    loop_ = s_
+                    return True
+                if isinstance(s_, ast.If):
+                    c = choose(s_.test, ev)
+                    if go(s_.body if c else s_.orelse):
+                        return True
+                    continue
+                ev.stmt(s_)
+            return False
+        go(f.node.body)
+        return ev.env.get('offset'), loop_
+    try:
+        outcomes = explore(run)
+    except Inconclusive as e:
+        raise AnalysisError(f'solve: {e}')
+    loop = None
     j = 'self.surface_idx'
-    # accept either spelling of the index
-    cand = [a for a in off.atoms() if a.startswith('UA[')]
-    if len(cand) == 1:
-        ua = cand[0]
-        idx = ua[3:-1].replace(' ', '')
-        law = rat_eq(A(f'YA[{j}]') + A(ua) * off, A('self.height'))
-        prev = idx == f'{j}-1'
-        if law and prev:
-            res.ok('offset = (height - ya[j]) / ua[j-1]')
-        elif law:
+    for decisions, (off, loop) in outcomes:
+        if off is None:
+            res.fail(ctx.finding('SOLVE', f, f.node,
+                                 'solve computes no offset on some path',
+                                 construct='solve transfer law'))
+            continue
+        cand = [a for a in off.atoms() if a.startswith('UA[')]
+        ycand = [a for a in off.atoms() if a.startswith('YA[')]
+        if len(cand) == 1 and len(ycand) == 1:
+            ua = cand[0]
+            idx = ua[3:-1].replace(' ', '')
+            law = rat_eq(A(f'YA[{j}]') + A(ua) * off, A('self.height'))
+            prev = idx == f'{j}-1'
+            if law and prev:
+                res.ok(f'offset = (height - ya[j]) / ua[j-1] '
+                       f'(branches {decisions})')
+            elif law:
+                res.fail(ctx.finding(
+                    'SOLVE', f, f.node,
+                    f'the solve divides by {ua}, the marginal slope AFTER '
+                    f'refraction at the solved surface; the ray reaches the '
+                    f'surface with the slope of the preceding space (index '
+                    f'j-1), so on an interior surface the ray does not land '
+                    f'at the requested height', construct='solve slope index'))
+            else:
+                res.fail(ctx.finding('SOLVE', f, f.node,
+                                     'solve offset does not satisfy the '
+                                     'transfer law',
+                                     construct='solve transfer law'))
+        else:
             res.fail(ctx.finding(
                 'SOLVE', f, f.node,
-                f'the solve divides by {ua}, the marginal slope AFTER '
-                f'refraction at the solved surface; the ray reaches the '
-                f'surface with the slope of the preceding space (index j-1), '
-                f'so on an interior surface the ray does not land at the '
-                f'requested height', construct='solve slope index'))
-        else:
-            res.fail(ctx.finding('SOLVE', f, f.node,
-                                 'solve offset does not satisfy the transfer '
-                                 'law', construct='solve transfer law'))
-    else:
-        res.fail(ctx.finding('SOLVE', f, f.node,
-                             'solve offset does not use the marginal slope',
-                             construct='solve transfer law'))
+                f'on some path (branches {decisions}) the solve offset is not '
+                f'computed from a marginal ray traced by this call (it uses '
+                f'{sorted(off.atoms())}): with several solves, or after an '
+                f'edit, a stale ray places the surface wrongly',
+                construct='solve uses a ray not traced by this call'))
     if loop is not None and unparse(loop.iter).replace(' ', '') == \
             'self.optic.surface_group.surfaces[self.surface_idx:]' and any(
             isinstance(s, ast.AugAssign) and isinstance(s.op, ast.Add) and
